@@ -654,3 +654,48 @@ _run_c06b = run
 def run(ctx):  # noqa: F811
     _run_c06b(ctx)
     r06_9(ctx)
+
+
+def r06_10(ctx):
+    """dtype typing of the volume weighting: no in-place product of a copy of the values with float volume arrays"""
+    m = ctx.model
+    F = m.cls(FLD, "Field")
+    fi = F.methods["weight"]
+    ctx.saw_func(fi)
+    ctx.rule("R06.10", "Field.weight for every dtype: the copy of the field's values (which has the field's dtype, possibly integer) is "
+                       "never combined IN PLACE (`*=`, `/=`) with an AnyArray of volume factors (float64): AnyArray's in-place "
+                       "operators with an array operand are numpy's dtype-preserving ones and raise for integer fields; scalar "
+                       "factors fall back to the out-of-place product", floor=1)
+    copies = {src(st.targets[0]) for st in walk_no_nested(fi.node) if isinstance(st, ast.Assign) and isinstance(st.targets[0], ast.Name)
+              and isinstance(st.value, ast.Call) and call_name(st.value) == "copy" and src(st.value.func.value) in ("self.val", "self._val")}
+    arrays = {src(st.targets[0]) for st in ast.walk(fi.node) if isinstance(st, ast.Assign) and isinstance(st.targets[0], ast.Name)
+              and any(isinstance(c, ast.Call) and src(c.func) == "AnyArray" for c in ast.walk(st.value))}
+    # names re-bound from an array stay arrays (reshape, at, ...)
+    changed = True
+    while changed:
+        changed = False
+        for st in ast.walk(fi.node):
+            if isinstance(st, ast.Assign) and isinstance(st.targets[0], ast.Name) and st.targets[0].id not in arrays and \
+                    any(isinstance(x, ast.Name) and x.id in arrays for x in ast.walk(st.value)) and isinstance(st.value, ast.Call):
+                arrays.add(st.targets[0].id)
+                changed = True
+    augs = [st for st in ast.walk(fi.node) if isinstance(st, ast.AugAssign) and isinstance(st.target, ast.Name) and st.target.id in copies
+            and isinstance(st.op, (ast.Mult, ast.Div))]
+    prods = [st for st in ast.walk(fi.node) if isinstance(st, ast.Assign) and isinstance(st.targets[0], ast.Name) and st.targets[0].id in copies
+             and isinstance(st.value, ast.BinOp) and isinstance(st.value.op, (ast.Mult, ast.Div))]
+    key = f"{fi.key}::volume arrays are applied out of place"
+    bad = [st for st in augs if any(isinstance(x, ast.Name) and x.id in arrays for x in ast.walk(st.value))]
+    if not copies or not (augs or prods):
+        ctx.und("R06.10", key, "weighting statements not found", fi)
+    else:
+        ctx.check("R06.10", key, not bad, f"`{src(bad[0])}`: in-place product of the value copy (dtype of the field) with the float volume array `"
+                                          f"{[x.id for x in ast.walk(bad[0].value) if isinstance(x, ast.Name) and x.id in arrays][0]}` raises UFuncTypeError for integer fields" if bad else None,
+                  fi, bad[0] if bad else (prods or augs)[0])
+
+
+_run_c06c = run
+
+
+def run(ctx):  # noqa: F811
+    _run_c06c(ctx)
+    r06_10(ctx)
